@@ -68,12 +68,13 @@ theorem lt_of_getElem?_some {α} {l : List α} {i : Nat} {a : α} (h : l[i]? = s
   · simp [List.getElem?_eq_none h'] at h
 
 /-- one scheduling decision preserves the invariant — whatever thread is picked -/
-theorem step_preserves {n secs s closed cur todo rem} (i : Nat) (h : Inv n secs s closed cur todo rem) :
-    ∃ closed' cur' todo' rem', Inv n secs (stepThread s i) closed' cur' todo' rem' := by
+theorem step_preserves' {n secs s closed cur todo rem} (i : Nat) (h : Inv n secs s closed cur todo rem) :
+    ∃ closed' cur' todo' rem', Inv n secs (stepThread s i) closed' cur' todo' rem'
+      ∧ (closed' = closed ∨ closed' = closed ++ [(i, cur)]) := by
   by_cases hi' : ¬ i < n
   · -- unknown thread: no-op
     have : s.pcs[i]? = none := by simp [h.len]; omega
-    exact ⟨closed, cur, todo, rem, by simpa [stepThread, this] using h⟩
+    exact ⟨closed, cur, todo, rem, by simpa [stepThread, this] using h, Or.inl rfl⟩
   have hi : i < n := by omega
   have hlt : i < s.pcs.length := by rw [h.len]; exact hi
   by_cases hs : s.sem = some i
@@ -83,7 +84,7 @@ theorem step_preserves {n secs s closed cur todo rem} (i : Nat) (h : Inv n secs 
     | nil =>
       -- release
       simp only [callSteps, List.map_nil, List.nil_append] at hpc
-      refine ⟨closed ++ [(i, cur)], [], [], rem, ?_⟩
+      refine ⟨closed ++ [(i, cur)], [], [], rem, ?_, Or.inr rfl⟩
       simp only [stepThread, hpc]
       refine ⟨by simpa using h.len, ?_, ?_, ?_, ?_, ?_⟩
       · intro j hj _
@@ -111,7 +112,7 @@ theorem step_preserves {n secs s closed cur todo rem} (i : Nat) (h : Inv n secs 
     | cons c t =>
       -- a call on the target
       simp only [callSteps, List.map_cons, List.cons_append] at hpc
-      refine ⟨closed, cur ++ [c], t, rem, ?_⟩
+      refine ⟨closed, cur ++ [c], t, rem, ?_, Or.inl rfl⟩
       simp only [stepThread, hpc]
       refine ⟨by simpa using h.len, ?_, ?_, ?_, ?_, h.owners⟩
       · intro j hj hne
@@ -132,13 +133,13 @@ theorem step_preserves {n secs s closed cur todo rem} (i : Nat) (h : Inv n secs 
     cases hr : rem i with
     | nil =>
       rw [hr] at hpc
-      exact ⟨closed, cur, todo, rem, by simpa [stepThread, hpc, segSteps] using h⟩
+      exact ⟨closed, cur, todo, rem, by simpa [stepThread, hpc, segSteps] using h, Or.inl rfl⟩
     | cons sg r =>
       rw [hr] at hpc
       cases sg with
       | put x =>
         simp only [segSteps] at hpc
-        refine ⟨closed, cur, todo, fun j => if j = i then r else rem j, ?_⟩
+        refine ⟨closed, cur, todo, fun j => if j = i then r else rem j, ?_, Or.inl rfl⟩
         simp only [stepThread, hpc]
         refine ⟨by simpa using h.len, ?_, ?_, ?_, ?_, h.owners⟩
         · intro j hj hne
@@ -167,9 +168,9 @@ theorem step_preserves {n secs s closed cur todo rem} (i : Nat) (h : Inv n secs 
         cases hsem : s.sem with
         | some k =>
           -- blocked at acquire: no-op
-          exact ⟨closed, cur, todo, rem, by simpa [stepThread, hpc, hsem] using h⟩
+          exact ⟨closed, cur, todo, rem, by simpa [stepThread, hpc, hsem] using h, Or.inl rfl⟩
         | none =>
-          refine ⟨closed, [], sc, fun j => if j = i then r else rem j, ?_⟩
+          refine ⟨closed, [], sc, fun j => if j = i then r else rem j, ?_, Or.inl rfl⟩
           simp only [stepThread, hpc, hsem]
           refine ⟨by simpa using h.len, ?_, ?_, ?_, ?_, h.owners⟩
           · intro j hj hne
@@ -190,6 +191,67 @@ theorem step_preserves {n secs s closed cur todo rem} (i : Nat) (h : Inv n secs 
             · have : ¬ (i = j) := fun hc => hji hc.symm
               simp [hsem, hji, this] at *
               assumption
+
+theorem step_preserves {n secs s closed cur todo rem} (i : Nat) (h : Inv n secs s closed cur todo rem) :
+    ∃ closed' cur' todo' rem', Inv n secs (stepThread s i) closed' cur' todo' rem' := by
+  obtain ⟨c, cu, t, r, h', _⟩ := step_preserves' i h
+  exact ⟨c, cu, t, r, h'⟩
+
+/-- the semaphore changes hands only through the stepping thread -/
+theorem stepThread_sem (s : St) (i h : Nat) (hs : (stepThread s i).sem = some h) : s.sem = some h ∨ h = i := by
+  unfold stepThread at hs
+  split at hs
+  · left; exact hs
+  · left; exact hs
+  · split at hs
+    · right; simp at hs; exact hs.symm
+    · left; exact hs
+  · simp at hs
+  · left; exact hs
+  · left; exact hs
+
+/-- the invariant only reads the semaphore, the program counters and the log -/
+theorem Inv_congr {n secs} {s s' : St} {closed cur todo rem} (h : Inv n secs s closed cur todo rem)
+    (hsem : s'.sem = s.sem) (hpcs : s'.pcs = s.pcs) (hlog : s'.log = s.log) : Inv n secs s' closed cur todo rem :=
+  ⟨by rw [hpcs]; exact h.len, by rw [hsem, hpcs]; exact h.out, by rw [hsem, hpcs]; exact h.ins,
+   by rw [hsem, hlog]; exact h.log_eq, by rw [hsem]; exact h.acct, h.owners⟩
+
+/-- an idle thread that has done nothing yet is given a program of whole sections -/
+theorem inv_extend {n secs s closed cur todo rem} (h : Inv n secs s closed cur todo rem) (j : Nat) (hj : j < n)
+    (hsec : secs j = []) (hpc : s.pcs[j]? = some []) (p : List Section) :
+    Inv n (fun t => if t = j then p else secs t) { s with pcs := s.pcs.set j (progSteps p) } closed cur todo
+      (fun t => if t = j then p.map Seg.sec else rem t) := by
+  have hlt : j < s.pcs.length := by rw [h.len]; exact hj
+  have hns : s.sem ≠ some j := by
+    intro hc
+    obtain ⟨_, hpc'⟩ := h.ins j hc
+    rw [hpc] at hpc'; simp at hpc'
+  have hown : ownedBy j closed = [] := by
+    have := h.acct j hj
+    rw [hsec] at this
+    have := List.append_eq_nil_iff.mp this.symm
+    exact (List.append_eq_nil_iff.mp this.1).1
+  refine ⟨by simpa using h.len, ?_, ?_, h.log_eq, ?_, h.owners⟩
+  · intro t ht hne
+    simp only [List.getElem?_set]
+    by_cases htj : t = j
+    · subst htj; simp [hlt, progSteps_eq_segSteps]
+    · have : ¬ j = t := fun hc => htj hc.symm
+      simp only [this, htj, if_false]
+      exact h.out t ht hne
+  · intro k hk
+    obtain ⟨hk1, hk2⟩ := h.ins k hk
+    have hkj : ¬ k = j := by intro hc; subst hc; exact hns hk
+    have : ¬ j = k := fun hc => hkj hc.symm
+    refine ⟨hk1, ?_⟩
+    simp only [List.getElem?_set, this, hkj, if_false]
+    exact hk2
+  · intro t ht
+    by_cases htj : t = j
+    · subst htj
+      simp [hown, hns, segSecs_map_sec]
+    · simp only [htj, if_false]
+      exact h.acct t ht
 
 /-- the invariant holds along every schedule -/
 theorem run_preserves {n secs} (sched : List Nat) : ∀ {s closed cur todo rem}, Inv n secs s closed cur todo rem →
